@@ -32,7 +32,7 @@ VARS = ("pid", "X", "Y", "Z", "age", "temp", "tag", "dose", "active")
 
 
 def bounds(tier, seed):
-    return dict(schemes=["EF", "RK2", "RK4"], release=["discrete", "continuous", "late"], deaths=["none", "ibm", "leave", "both"], scalar=[True], numrec=[1, 2, 3],
+    return dict(schemes=["EF", "RK2", "RK4"], release=["discrete", "continuous", "late", "gap"], deaths=["none", "ibm", "leave", "both"], scalar=[True], numrec=[1, 2, 3],
                 nsteps=[12, 13] if tier == "quick" else [8, 12, 13, 17], periods=[2] if tier == "quick" else [1, 2, 3])
 
 
@@ -82,6 +82,8 @@ def setup(case, d):
         sched = [(0, 0, 2), (0, 1, 1), (3, 2, 1), (4, 3, 1), (7, 0, 1), (10, 1, 2)]
     elif case["release"] == "late":  # nothing is released during the first three steps
         sched = [(3, 0, 2), (4, 1, 1), (7, 2, 1), (10, 3, 1)]
+    elif case["release"] == "gap":  # an early cohort (which an age limit kills off completely), nothing for a long while, one late release
+        sched = [(0, 0, 2), (1, 1, 1), (10, 3, 1)]
     else:
         sched = [(0, 0, 1), (0, 2, 1), (7, 1, 1)]  # the second file time is NOT on the 3-step tick grid
     for slot, pi, mult in sched:
@@ -108,6 +110,8 @@ def released_upto(case, step):
         return sum(m for slot, _, m in [(0, 0, 2), (0, 1, 1), (3, 2, 1), (4, 3, 1), (7, 0, 1), (10, 1, 2)] if slot <= step)
     if case["release"] == "late":
         return sum(m for slot, _, m in [(3, 0, 2), (4, 1, 1), (7, 2, 1), (10, 3, 1)] if slot <= step)
+    if case["release"] == "gap":
+        return sum(m for slot, _, m in [(0, 0, 2), (1, 1, 1), (10, 3, 1)] if slot <= step)
     total, t = 0, 0
     while t <= step:
         total += 2 if t < 7 else 1  # file times 0 (two rows) and 7 (one row), ticks every 3 steps
